@@ -297,4 +297,24 @@ theorem C07_time_noted_after_read_witness :
     (CacheSync.fresh bad = true ∧ bad.db = [0, 1, 2, 3] ∧ bad.file.map (·.content) = some [0, 1, 3]) ∧
     (CacheSync.fresh good = true ∧ good.file.map (·.content) = some [0, 1, 2, 3]) := by decide
 
+/-- **Another writer inside a constructor that rebuilds.**  Instance 0 finds no usable cache (the user's file is missing
+or older than the database, no stack-wide cache), scans the database, another process of the user declares and saves its
+cache file, then instance 0 gets to its `save()` — which leaves the file alone, because its time was noted before the
+scan (repair 03a1e94).  Instance 1 is constructed next.  Whatever follows (no deletion): a cache file that is not older
+than the database is complete. -/
+theorem C07_writer_inside_rebuild_safe (s : CacheSync.St) (h : CacheSync.Start s)
+    (hstale : ∀ f, s.file = some f → f.mtime < s.dbTime) (evs : List CacheSync.Ev) (hnd : ∀ e ∈ evs, e ≠ .delete) :
+    CacheSync.Safe (CacheSync.run true (CacheSync.load true false (CacheSync.rebuildGate true s) true) evs) :=
+  ((CacheSync.rebuildGate_inv h hstale).run evs hnd).safe
+
+/-- **D62 (fixed 03a1e94), the constructor before the repair**: the files `save()` replaces are unknown to a stack that
+was just created, so the scan of before the other writer's change goes over the other writer's file — newer than the
+database, incomplete — and instance 1, constructed next, accepts it.  With the repair the same schedule keeps the
+complete file. -/
+theorem C07_writer_inside_rebuild_witness :
+    let old := CacheSync.initRebuildGate false 2 0
+    let new := CacheSync.initRebuildGate true 2 0
+    (CacheSync.fresh old = true ∧ old.db = [0, 1, 2] ∧ old.file.map (·.content) = some [0, 1] ∧ old.i1.mem = [0, 1]) ∧
+    (CacheSync.fresh new = true ∧ new.file.map (·.content) = some [0, 1, 2] ∧ new.i1.mem = [0, 1, 2]) := by decide
+
 end EupsModel.C07
